@@ -182,10 +182,22 @@ fn inserted_break_case(ctx: &Ctx, ch: &mut Ch) -> Outcome {
     }
 }
 
+/// One fuzz iteration (used by the libFuzzer target): decode the choices into a program and three
+/// layouts and apply the re-layout oracle.
+pub fn fuzz_one(choices: &[u16]) -> Result<(), Failure> {
+    let ctx = Ctx::new("C10", Tier::Quick, 0, 0, 1);
+    let mut ch = Ch::new(choices);
+    let toks = gen_tokens(&mut ch);
+    if toks.len() > 150 {
+        return Ok(());
+    }
+    relayout(&ctx, &mut ch, &toks, &["c0"], 2)
+}
+
 const ALPHA_LAYOUT: [&str; 11] = ["a", "1", "+", "(", ")", ";", "#", "\n", " ", "\r", "é"];
 
 pub fn def(tier: Tier) -> CheckDef {
-    let rounds = tier.pick(4, 60);
+    let rounds = tier.pick(30, 300);
     let l = tier.pick(6, 7);
     CheckDef {
         id: "C10",
@@ -197,7 +209,24 @@ pub fn def(tier: Tier) -> CheckDef {
         ],
         idle_limit_s: 300,
         needs_cli: false,
+        fuzz: Some(("fuzz_layout", 150000)),
         parts: vec![
+            Part {
+                name: "fuzz",
+                rounds: 0,
+                run: Box::new(|_, _| {}),
+                replay: Some(Box::new(|_, inp| match inp {
+                    ReplayInput::Bytes(data) => {
+                        let choices: Vec<u16> = data.chunks(2).map(|c| u16::from(c[0]) << 8 | u16::from(*c.get(1).unwrap_or(&0))).collect();
+                        fuzz_one(&choices)
+                    }
+                    ReplayInput::Text(t) => {
+                        let choices: Vec<u16> = t.as_bytes().chunks(2).map(|c| u16::from(c[0]) << 8 | u16::from(*c.get(1).unwrap_or(&0))).collect();
+                        fuzz_one(&choices)
+                    }
+                    ReplayInput::Choices(c) => fuzz_one(c),
+                })),
+            },
             Part {
                 name: "examples",
                 rounds: 1,
@@ -240,7 +269,7 @@ pub fn def(tier: Tier) -> CheckDef {
                 run: Box::new(|ctx, r| ctx.prop("relayout", r, 500, 1200, relayout_case)),
                 replay: Some(Box::new(|ctx, inp| match inp {
                     ReplayInput::Choices(c) => relayout_case(ctx, &mut Ch::new(c)),
-                    ReplayInput::Text(_) => Err(Failure::new("this part replays from choices", "")),
+                    _ => Err(Failure::new("this part replays from choices", "")),
                 })),
             },
             Part {
@@ -249,7 +278,7 @@ pub fn def(tier: Tier) -> CheckDef {
                 run: Box::new(|ctx, r| ctx.prop("inserted-break", r, 500, 600, inserted_break_case)),
                 replay: Some(Box::new(|ctx, inp| match inp {
                     ReplayInput::Choices(c) => inserted_break_case(ctx, &mut Ch::new(c)),
-                    ReplayInput::Text(_) => Err(Failure::new("this part replays from choices", "")),
+                    _ => Err(Failure::new("this part replays from choices", "")),
                 })),
             },
             Part {
